@@ -83,6 +83,46 @@ MUTANTS = [
     ("mixed_init_clamp", "checkpoint_schedules/mixed.py",
      "self._snapshots = min(snapshots, max_n - 1)", "self._snapshots = snapshots",
      ["mixed.MixedCheckpointSchedule.__init__"], "units"),
+    ("revolve_copy_for_move", "checkpoint_schedules/hrevolve.py",
+     "                    snapshots.remove((storage, n_0))\n                    yield Move(n_0, storage, StorageType.WORK)",
+     "                    snapshots.remove((storage, n_0))\n                    yield Copy(n_0, storage, StorageType.WORK)",
+     ["hrevolve.RevolveCheckpointSchedule._iterator"], "store_is_snapshot_set"),
+    ("revolve_drop_r_increment", "checkpoint_schedules/hrevolve.py",
+     "                self._r += 1\n                yield Reverse(n_0, n_1, clear_adj_deps=True)",
+     "                yield Reverse(n_0, n_1, clear_adj_deps=True)",
+     ["hrevolve.RevolveCheckpointSchedule._iterator"], "r_is_steps_reversed"),
+    ("revolve_reverse_swapped", "checkpoint_schedules/hrevolve.py",
+     "yield Reverse(n_0, n_1, clear_adj_deps=True)", "yield Reverse(n_1, n_0, clear_adj_deps=True)",
+     ["hrevolve.RevolveCheckpointSchedule._iterator"], "Reverse"),
+    ("revolve_forward_guard_dropped", "checkpoint_schedules/hrevolve.py",
+     "                if n_0 != self._n:\n                    raise InvalidForwardStep\n                self._n = n_1",
+     "                self._n = n_1",
+     ["hrevolve.RevolveCheckpointSchedule._iterator"], "forward_starts_at_forward_state"),
+    ("revolve_leftover_check_dropped", "checkpoint_schedules/hrevolve.py",
+     "        if len(snapshots) > 0:\n            raise RuntimeError(\"Unexpected snapshot number.\")\n", "",
+     ["hrevolve.RevolveCheckpointSchedule._iterator"], "storage_empty_at_final_EndReverse"),
+    ("revolve_exhausted_late", "checkpoint_schedules/hrevolve.py",
+     "        self._exhausted = True\n        yield EndReverse()", "        yield EndReverse()\n        self._exhausted = True",
+     ["hrevolve.RevolveCheckpointSchedule._iterator"], "is_exhausted_true_once_final_action_emitted"),
+    ("revolve_forward_storage", "checkpoint_schedules/hrevolve.py",
+     "                    write_ics = False\n                    adj_deps = False\n                    w_storage = StorageType.WORK",
+     "                    write_ics = False\n                    adj_deps = False\n                    w_storage = StorageType.RAM",
+     ["hrevolve.RevolveCheckpointSchedule._iterator"], "forward_ram_disk_only_if_written"),
+    ("revolve_read_keeps_n", "checkpoint_schedules/hrevolve.py",
+     "                self._n = n_0\n                if i in last_read:", "                if i in last_read:",
+     ["hrevolve.RevolveCheckpointSchedule._iterator"], "n_is_forward_position"),
+    ("convert_levels_swapped", "checkpoint_schedules/hrevolve.py",
+     "storage = {0: StorageType.RAM, 1: StorageType.DISK}[storage]",
+     "storage = {1: StorageType.RAM, 0: StorageType.DISK}[storage]",
+     ["hrevolve._convert_action"], "levelled"),
+    ("convert_backward_check", "checkpoint_schedules/hrevolve.py",
+     "        if n_0 <= n_1:\n            raise RuntimeError(\"Invalid backward indexes.\")",
+     "        if n_0 < n_1:\n            raise RuntimeError(\"Invalid backward indexes.\")",
+     ["hrevolve._convert_action"], "RuntimeError"),
+    ("convert_disk_as_ram", "checkpoint_schedules/hrevolve.py",
+     "        storage = 1\n        storage = {1: StorageType.DISK}[storage]",
+     "        storage = 1\n        storage = {1: StorageType.RAM}[storage]",
+     ["hrevolve._convert_action"], "disk_step"),
 ]
 
 
